@@ -149,6 +149,21 @@ func exactCase(rec *mon.Recorder, c int) {
 			}
 		}
 	}
+	// the collection is static now: the same questions asked by several goroutines at once have the same answers
+	if c%8 == 3 && n >= 3 && (coverByEf || true) {
+		var qs []amath.Vector
+		for i := 0; i < 4; i++ {
+			qs = append(qs, cfg.Vec(rng))
+		}
+		if sym, detail, done := hx.ConcurrentSearches(idx, sp, ref, qs, uint(n), 6, 24, true); sym != "" {
+			rec.Violation(fmt.Sprintf("exact:%s-under-concurrent-searches:%s", sym, mode), detail,
+				map[string]interface{}{"case": c, "seed": rec.Seed(), "cfg": cfg.String(), "inserts": hist, "k": n})
+			rec.Case(mon.Digest(cfg.String(), hist), true)
+			return
+		} else {
+			rec.Count("exact_concurrent_searches", int64(done))
+		}
+	}
 	rec.Count("exact_searches", int64(searches))
 	rec.Case(mon.Digest(cfg.String(), hist), n >= 3)
 	if rec.WantSample() && n <= 4 && n >= 3 {
